@@ -41,6 +41,11 @@ def gen_cases(tier, seed):
             n = int(big[r % len(big)])
             cases.append({"kind": "uni", "fam": fam, "params": p, "n": n, "seed": int(SEEDS[r % len(SEEDS)]), "cost": n / 1e5 + 0.2})
         cases.append({"kind": "uni-small", "fam": fam, "params": S.draw_params(rng, fam, S.RANGE)})
+    # parameter regions beyond the regular table: very small exponentiated-Weibull delta (mass piled up next to zero),
+    # shapes below one, locations far from zero
+    prng = np.random.default_rng([seed, 7, 21])
+    for dl in (0.03, 0.05, 0.08, 0.15):
+        cases.append({"kind": "uni", "fam": "expweib", "params": {"alpha": float(prng.uniform(0.5, 3)), "beta": float(prng.uniform(0.8, 2.5)), "delta": dl}, "n": 200000, "seed": int(SEEDS[int(prng.integers(len(SEEDS)))]), "cost": 3})
     structs = S.all_structures(2) + S.all_structures(3)
     jreps = 4 if tier == "quick" else 60
     for r in range(jreps):
